@@ -162,6 +162,26 @@ def run(ctx: Context) -> None:
     if n_q == 0:
         raise AnalysisError("C19c: anchor vanished: no use of instruction.qubits in _encode_dual_rail_from_qiskit")
     ctx.rule("C19c", "the order of a gate's qubit operands is not sorted/uniqued before modes are assigned")
+    # ---- (d) bits are resolved to circuit-global indices, never to positions in an instruction's own operand list ------
+    ctx.rule("C19d", "a qubit / classical bit is never resolved by its position in an instruction's own operand list (`instr.clbits.index(bit)`): "
+                     "conditions and mode assignments refer to circuit-global bit indices")
+
+    def local_positions(tree):
+        return [c for c in ast.walk(tree) if isinstance(c, ast.Call) and isinstance(c.func, ast.Attribute) and c.func.attr == "index"
+                and isinstance(c.func.value, ast.Attribute) and c.func.value.attr in ("clbits", "qubits")]
+
+    fixture = ast.parse("def f(instr, cond):\n    return instr.clbits.index(cond[0])\ndef g(qc, q):\n    return qc.find_bit(q).index\n")
+    if [len(local_positions(f_)) for f_ in fixture.body] != [1, 0]:
+        raise AnalysisError("C19d: the rule does not behave on its inline fixture")
+    n_res = sum(1 for c in ast.walk(m.tree) if isinstance(c, ast.Call) and isinstance(c.func, ast.Attribute) and c.func.attr == "find_bit") \
+        + sum(1 for a_ in ast.walk(m.tree) if isinstance(a_, ast.Attribute) and a_.attr == "_index")
+    ctx.require_floor("global bit-index resolutions (find_bit / _index) in the dual-rail module", n_res, 1)
+    bad = local_positions(m.tree)
+    ctx.obligation("C19d", f"{MOD}|bits-resolved-globally", not bad, resolutions=n_res)
+    for c in bad:
+        ctx.violation("C19d", f"{MOD}|instruction-local-bit-position", m.path, c.lineno,
+                      f"`{norm(c)[:70]}` is the position of the bit inside this instruction's own operand list, not its index in the circuit: an "
+                      f"`if_else` on any classical bit other than the first one is conditioned on the wrong measurement outcome", norm(c)[:100])
 
 
 def _translate(idx, reg, m, call: ast.Call, angles: List[sp.Symbol], depth: int = 0):
